@@ -235,6 +235,10 @@ func DecodeTokenV3(tokenstr string) (*TokenV3, error) {
 	if err != nil {
 		return nil, fmt.Errorf("error unmarshaling token: %v", err)
 	}
+	// a V3 token names its mint in its entries: without any there is no token
+	if len(token.Token) == 0 {
+		return nil, ErrInvalidTokenV3
+	}
 
 	return &token, nil
 }
@@ -248,6 +252,9 @@ func (t TokenV3) Proofs() Proofs {
 }
 
 func (t TokenV3) Mint() string {
+	if len(t.Token) == 0 {
+		return ""
+	}
 	return t.Token[0].Mint
 }
 
